@@ -263,6 +263,13 @@ func (w *World) isMain(fn *ssa.Function) bool {
 func (w *World) lookupType(name string) *types.Named {
 	obj := w.Main.Pkg.Scope().Lookup(name)
 	if obj == nil {
+		for nu, old := range typeAlias {
+			if old == name {
+				obj = w.Main.Pkg.Scope().Lookup(nu)
+			}
+		}
+	}
+	if obj == nil {
 		return nil
 	}
 	n, _ := obj.Type().(*types.Named)
